@@ -1,6 +1,8 @@
 package vlib
 
 import (
+	"strings"
+	"sort"
 	"bufio"
 	"log"
 	"bytes"
@@ -56,6 +58,29 @@ func Serve(handler func(in json.RawMessage) any) {
 type Crash struct {
 	Timeout bool
 	Output  string // tail of the worker's stdout+stderr
+	// Killed: the worker was terminated by SIGKILL from outside (the kernel's out-of-memory killer) and left no Go
+	// panic or fatal error behind: a statement about the machine, not about the case.
+	Killed bool
+}
+
+var (
+	resMu        sync.Mutex
+	resourceSkip []string
+)
+
+// ResourceSkips returns the cases that could not be run because the kernel killed their worker even when the case had
+// the machine to itself. They are reported and make the run non-exhaustive; they are never a verdict.
+func ResourceSkips() []string {
+	resMu.Lock()
+	defer resMu.Unlock()
+	return append([]string(nil), resourceSkip...)
+}
+
+func addResourceSkip(desc string) {
+	resMu.Lock()
+	resourceSkip = append(resourceSkip, desc)
+	resMu.Unlock()
+	fmt.Printf("RESOURCE: worker killed by the kernel (out of memory?) on a case that ran alone; case not explored: %s\n", desc)
 }
 
 // Pool is a set of worker subprocesses (copies of this test binary).
@@ -193,6 +218,12 @@ func (p *Pool) exec1(i int, in []byte) (json.RawMessage, *Crash) {
 		if r.err != nil || len(r.line) == 0 {
 			_ = w.cmd.Wait()
 			c := &Crash{Output: w.out.String()}
+			if ps := w.cmd.ProcessState; ps != nil {
+				if ws, ok := ps.Sys().(syscall.WaitStatus); ok && ws.Signaled() && ws.Signal() == syscall.SIGKILL &&
+					!strings.Contains(c.Output, "panic:") && !strings.Contains(c.Output, "fatal error:") {
+					c.Killed = true
+				}
+			}
 			w.kill()
 			p.workers[i] = nil
 			return nil, c
@@ -231,6 +262,7 @@ func (p *Pool) Run(cases []any, onResult func(i int, out json.RawMessage, crash 
 	var mu sync.Mutex
 	var cbMu sync.Mutex
 	var wg sync.WaitGroup
+	var deferred []int // cases whose worker the kernel killed: run again at the end, one at a time
 	for wi := 0; wi < p.N; wi++ {
 		wg.Add(1)
 		go func(wi int) {
@@ -248,6 +280,12 @@ func (p *Pool) Run(cases []any, onResult func(i int, out json.RawMessage, crash 
 				}
 				out, crash := p.exec1(wi, enc[i])
 				flaky := false
+				if crash != nil && crash.Killed {
+					mu.Lock()
+					deferred = append(deferred, i)
+					mu.Unlock()
+					continue
+				}
 				if crash != nil {
 					out2, crash2 := p.exec1(wi, enc[i])
 					if crash2 == nil {
@@ -263,4 +301,38 @@ func (p *Pool) Run(cases []any, onResult func(i int, out json.RawMessage, crash 
 		}(wi)
 	}
 	wg.Wait()
+	if len(deferred) == 0 {
+		return
+	}
+	// Every other worker gives its memory back first.
+	for wi := range p.workers {
+		if p.workers[wi] != nil {
+			p.workers[wi].kill()
+			p.workers[wi] = nil
+		}
+	}
+	sort.Ints(deferred)
+	for _, i := range deferred {
+		out, crash := p.exec1(0, enc[i])
+		if crash != nil && crash.Killed {
+			addResourceSkip(string(enc[i]))
+			continue
+		}
+		onResult(i, out, crash, crash == nil)
+	}
+}
+
+// MemAvailableGiB returns MemAvailable from /proc/meminfo in GiB (a large number when it cannot be read).
+func MemAvailableGiB() int {
+	b, err := os.ReadFile("/proc/meminfo")
+	if err != nil {
+		return 1 << 20
+	}
+	for _, line := range strings.Split(string(b), "\n") {
+		var kb int
+		if _, err := fmt.Sscanf(line, "MemAvailable: %d kB", &kb); err == nil {
+			return kb >> 20
+		}
+	}
+	return 1 << 20
 }
